@@ -107,10 +107,15 @@ ModelOf(key) == << key[1], key[2], key[3] >>
 \*   "calibration" calibrated parameter
 \*   "setattr"     the attribute itself (C12)
 \*   "construct", "yaml"   a new object from the constructor / a YAML document (C12)
+\* whether a model is enabled NOW: its flag is a setting like any other (an override may have changed it)
+Truthy(v) == v \notin { Num(0, 1), Txt("bool:False"), Txt("None"), Txt("str:"), Txt("list:[]") }
+EnabledNow(model) ==
+  LET k == model \o << "enabled" >> IN IF k \in DOMAIN tree THEN Truthy(tree[k]) ELSE model \notin scfg.disabled
+
 Refused(path, key, v) ==
   \/ Resolve(key) = NONE
   \/ ~ InRange(key, v)
-  \/ (path = "sweep" /\ IsModelArg(key) /\ ModelOf(key) \in scfg.disabled)
+  \/ (path = "sweep" /\ IsModelArg(key) /\ ~ EnabledNow(ModelOf(key)))
 
 \* What an accepted assignment produces, by entry point:
 \*   override, setattr   change the caller's settings and stay
